@@ -122,12 +122,30 @@ def coq_props(prop_file, timeout=900):
     return rc == 0, thms, out.strip(), out
 
 
+def strip_coq_comments(src):
+    """remove (nested) (* ... *) comments; string literals are respected"""
+    out, depth, i, n, instr = [], 0, 0, len(src), False
+    while i < n:
+        c = src[i]
+        if depth == 0 and c == '"':
+            instr = not instr
+            out.append(c); i += 1; continue
+        if not instr and src.startswith("(*", i):
+            depth += 1; i += 2; continue
+        if not instr and depth > 0 and src.startswith("*)", i):
+            depth -= 1; i += 2; continue
+        if depth == 0:
+            out.append(c)
+        i += 1
+    return "".join(out)
+
+
 def count_obligations(files):
     """Count statements and Qed's in the given Coq files (relative to coq/)."""
     stated = closed = 0
     names = []
     for f in files:
-        src = open(os.path.join(COQ, f)).read()
+        src = strip_coq_comments(open(os.path.join(COQ, f)).read())
         found = re.findall(r"^\s*(?:Theorem|Lemma|Corollary|Example|Fact|Remark)\s+([A-Za-z0-9_']+)", src, re.M)
         names += ["%s:%s" % (f, n) for n in found]
         stated += len(found)
